@@ -134,6 +134,52 @@ def run(facts, rep, ctx):
     tile_walk(facts, rep, R7)
     R6 = rep.rule("R19.6", "ETC1 differential delta: 3-bit two's-complement sign extension (exhaustive over the 8 inputs)", floor=1)
     sign_extension(facts, rep, R6)
+    R8 = rep.rule("R19.8", "every ETC1 block reaches the pixel nest; palette images go through block re-linearisation with aligned dimensions and are cropped", floor=3)
+    every_block_decoded(facts, rep, R8)
+    import c20
+    c20.tpl_pipeline_rule(facts, rep, R8)
+
+
+def every_block_decoded(facts, rep, R8):
+    """In etc1::decode every trip round the block loop that has read the block's colour word goes through the
+    pixel nest: a branch that returns to the block loop without entering it leaves the block's pixels unwritten."""
+    b = facts.body(ETC)
+    if b is None:
+        rep.inconc(R8, "etc1::decode not found")
+        return
+    loops = b.loops()
+    reads = [bb for bb, t in b.calls() if (callee_names(t)[1] or callee_names(t)[0] or "").endswith("read_u64")]
+    if not reads:
+        rep.inconc(R8, "etc1::decode: block reads (read_u64) not found")
+        return
+    # the block loop: the innermost loop containing the last colour-word read
+    rbb = reads[-1]
+    cont = [(len(bl), h) for h, bl in loops.items() if rbb in bl]
+    if not cont:
+        rep.inconc(R8, "etc1::decode: the colour word is not read inside a loop")
+        return
+    _, head = min(cont)
+    inner_heads = set(h for h, bl in loops.items() if h != head and h in loops[head])
+    if not inner_heads:
+        rep.inconc(R8, "etc1::decode: no pixel nest inside the block loop")
+        return
+    seen, st = set(), [s for s in b.succs(rbb)]
+    skipping = False
+    while st:
+        x = st.pop()
+        if x in seen or x in inner_heads:
+            continue
+        seen.add(x)
+        if x == head:
+            skipping = True
+            break
+        if x not in loops[head]:
+            continue        # left the loop (error exit / return)
+        st.extend(b.succs(x))
+    if skipping:
+        rep.violation(R8, b.name, "block-skipped", "etc1::decode can return to the block loop after reading a block without entering the pixel nest: the pixels of that block keep their initial value", "%s:%s" % (b.file, b.blocks[rbb]["term"].get("line")))
+    else:
+        rep.ok(R8, {"fn": b.name, "block_loop": "every block that is read reaches the pixel nest"})
 
 
 def color_writes(p):
